@@ -68,16 +68,27 @@ def stream_class(cls: str):
 
 
 def frames_to_bytes(frames, delimited: bool) -> bytes:
-    """Write frames the way the documented callers do."""
+    """Write frames the way the documented callers do: each frame as soon as it is yielded.
+
+    A caller may just as well collect the frames first (the repository's own tests do
+    ``list(flat_stream_to_frames(...))``); if a frame object changed after it was yielded, the
+    bytes such a caller would write are returned instead, so that every oracle sees them."""
     _, _, _, ioutils, _ = _mods()
     out = io.BytesIO()
-    n = 0
+    kept = []
     for fr in frames:
-        n += 1
+        kept.append((fr, fr.SerializeToString()))
         if delimited:
             ioutils.write_delimited(fr, out)
         else:
             ioutils.write_single(fr, out)
+    if any(fr.SerializeToString() != snap for fr, snap in kept):
+        out = io.BytesIO()
+        for fr, _ in kept:
+            if delimited:
+                ioutils.write_delimited(fr, out)
+            else:
+                ioutils.write_single(fr, out)
     return out.getvalue()
 
 
